@@ -21,6 +21,9 @@
 
 #include "assert.hpp"
 #include "test_heap.hpp"
+#ifdef UNODB_DETAIL_VERIF_HOOKS
+#include "verif_hooks.hpp"
+#endif
 
 namespace unodb::detail {
 
@@ -67,11 +70,18 @@ template <typename T>
     throw std::bad_alloc{};  // LCOV_EXCL_LINE
   }
 
+#ifdef UNODB_DETAIL_VERIF_HOOKS
+  unodb::verif::alloc(result, size);
+#endif
+
   return result;
 }
 
 /// Free heap memory allocated with allocate_aligned().
 inline void free_aligned(void* ptr) noexcept {
+#ifdef UNODB_DETAIL_VERIF_HOOKS
+  unodb::verif::dealloc(ptr);
+#endif
 #ifndef _MSC_VER
   // NOLINTNEXTLINE(cppcoreguidelines-no-malloc,cppcoreguidelines-owning-memory,hicpp-no-malloc)
   free(ptr);
